@@ -29,7 +29,7 @@ NSMAP = {'p': X.NS}
 
 
 def min_version(expr):
-    if any(k in expr for k in ('map', 'array', '[ ')) or expr in X.FN_EXPRS:
+    if any(k in expr for k in ('map', 'array', '[ ')) or expr in X.FN_EXPRS or expr in X.ABANDON_EXPRS:
         return '3.1'
     if any(k in expr for k in (' ! ', 'let $', 'function(', 'path(', 'head(', 'tail(', 'innermost', 'outermost',
                                'has-children', 'serialize', 'generate-id', 'sort(', 'parse-xml', 'for-each',
@@ -50,8 +50,12 @@ def gen_expr(rng):
         e = rng.choice(X.XP2)
     elif x < 0.58:
         e = rng.choice(X.XP3)
-    elif x < 0.66:
+    elif x < 0.64:
         e = rng.choice(X.FN_EXPRS)
+    elif x < 0.70:
+        e = rng.choice(X.ABANDON_EXPRS)
+    elif x < 0.75:
+        e = rng.choice(X.SERIALIZE_EXPRS)
     elif x < 0.9:
         e = rng.choice(X.VAR_EXPRS)
     else:
